@@ -56,8 +56,8 @@ def _actions():
 
 def model_check(thorough, wd):
     if thorough:
-        cfg = _cfg(os.path.join(wd, "mc.cfg"), {"MaxChars": 4, "MaxOps": 5, "MaxSegs": 3, "Texts": "TextsSmall"},
-                   MC_INVARIANTS, True)
+        cfg = _cfg(os.path.join(wd, "mc.cfg"), {"MaxChars": 4, "MaxOps": 5, "MaxSegs": 3, "Texts": "TextsSmall",
+                                                "InclSet": "NoIncl"}, MC_INVARIANTS, True)
     else:
         cfg = os.path.join(SPEC, "MC_Str.cfg")
     r = tlc("MC_Str", cfg, workers=8, timeout=2400 if thorough else 900, coverage=True,
@@ -113,14 +113,14 @@ def _emission_sets(thorough):
     every3 = dict(one_op, MaxChars=3, Texts="TextsSmall", DrainF=2, DrainB=1, MaxPieces=2)
     sets.append(("every-op-box", dict(every3, Kinds="KindBox", InclSet="BothIncl"), None))
     sets.append(("every-op-fixed", dict(every3, Kinds="KindFixed", InclSet="NoIncl", FixedCaps="CapsMid"), None))
-    sets.append(("every-op-grow", dict(every3, Kinds="KindGrow", InclSet="BothIncl"), None))
+    sets.append(("every-op-grow", dict(every3, Kinds="KindGrow", InclSet="NoIncl"), None))
     sets.append(("every-ctor", dict(emitc, MaxOps=1, MaxChars=4, StartTexts="SomeStrings", CtorNames="DecodeCtors", MaxSegs=3,
                                     MaxPieces=2), None))
     # every behaviour of constructor + 2 operations over a 3-character alphabet (widths 1, 2, 4)
     sets.append(("every-path-2", dict(emitc, MaxOps=3, MaxChars=2, Alphabet="AlphabetSmall", StartTexts="TwoStrings",
                                       CtorNames="FromStrOnly", Texts="TextsSmall", InclSet="NoIncl", Apis="OnlyP",
                                       DrainF=1, DrainB=0, MaxPieces=1, FixedCaps="CapsSmall"), None))
-    sets.append(("walks", dict(walk, MaxOps=10), (1500, 14, 8)))
+    sets.append(("walks", dict(walk, MaxOps=10), (700, 14, 8)))
     return sets
 
 
@@ -471,7 +471,8 @@ def _conformance(tier, t0, thorough, out, wd, bins, mc_future):
         "traces_validated_against_impl": nbeh,
         "samples": samples,
         "exhaustive": False,
-        "mc_bounds": "alphabet {a, NUL, U+E9, U+20AC, U+1F600}, <= %d characters, <= %d steps" % ((4, 5) if thorough else (3, 3)),
+        "mc_bounds": "alphabet {a, NUL, U+E9, U+20AC, U+1F600}, <= %d characters, <= %d steps; byte-level refinement: <= 3 characters"
+                     % ((4, 5) if thorough else (3, 3)),
         "mc_actions_taken": {a: mc.coverage[a][1] for a in _actions() if a in mc.coverage},
         "byte_level_refinement_strings_checked": getattr(mc, "refinement_checked", 0),
         "behaviour_sets": sets,
